@@ -4,7 +4,7 @@
 #    the patch and passes without it; 2. applies the patch to /repo, runs the given quick checks (default: all), reverts.
 # Writes /tmp/wt/<PROP>-out/<m>/validation.json
 P="$1"; M="$2"; shift 2
-WT=/tmp/wt/$P; OUT=/tmp/wt/$P-out/$M
+BASE=${SEED_BASE:-/tmp/wt}; WT=$BASE/$P; OUT=$BASE/$P-out/$M
 [ -f "$OUT/patch.diff" ] || { echo "no patch"; exit 2; }
 cd "$WT" || exit 2
 git checkout -q -- . ; rm -rf lib/tests
@@ -25,8 +25,8 @@ CHECKS="$@"; [ -z "$CHECKS" ] && CHECKS="C01 C02 C03 C04 C05 C06 C07 C08 C09 C10
 res=$(tools/with_mutant.sh "$OUT/patch.diff" $CHECKS 2>&1)
 echo "$res" | grep -E "^==" | sed 's/replay=[^ ]*//g' | cut -c1-110
 caught=$(echo "$res" | grep -E "^== C[0-9]+ exit=1" | sed -E 's/^== (C[0-9]+).*/\1/' | tr '\n' ' ')
-python3 - "$P" "$M" "$suite" "$passed" "$demo_clean" "$demo_patched" "$caught" "$CHECKS" <<'PY'
+python3 - "$P" "$M" "$suite" "$passed" "$demo_clean" "$demo_patched" "$caught" "$CHECKS" "$OUT" <<'PY'
 import json,sys
 P,M,suite,passed,dc,dp,caught,checks=sys.argv[1:9]
-json.dump({"property":P,"mutant":M,"suite_exit_with_patch":int(suite),"tests_passed_with_patch":int(passed or 0),"demo_exit_clean":int(dc),"demo_exit_patched":int(dp),"quick_checks_run":checks.split(),"quick_checks_reporting_violation":caught.split()},open(f"/tmp/wt/{P}-out/{M}/validation.json","w"),indent=1)
+json.dump({"property":P,"mutant":M,"suite_exit_with_patch":int(suite),"tests_passed_with_patch":int(passed or 0),"demo_exit_clean":int(dc),"demo_exit_patched":int(dp),"quick_checks_run":checks.split(),"quick_checks_reporting_violation":caught.split()},open(sys.argv[9]+"/validation.json","w"),indent=1)
 PY
